@@ -269,3 +269,187 @@ Proof.
   - intros rid a b (-> & Hb). rewrite (done_bag_drop rid b Hb). split; [reflexivity | exact Hb].
   - unfold simR; cbn [r_c r_n r_effs r_evs r_reqs]. repeat split; try reflexivity. apply done_bag0_is.
 Qed.
+
+(* ---------- then done c = c (left unit), as whole traces ---------- *)
+(* more fuel never hurts *)
+Lemma run_mono : forall f en c n r, run f en c n = Some r -> run (S f) en c n = Some r.
+Proof.
+  induction f as [|f IH]; intros en c n r E; [discriminate|].
+  destruct c as [b|a b|l|k a|k a]; cbn [run] in E; remember (S f) as g eqn:Eg; cbn [run]; subst g.
+  - exact E.
+  - destruct (run f en a n) as [[[a1 n1] o1]|] eqn:EA; [|discriminate].
+    rewrite (IH _ _ _ _ EA). destruct (rdone a1); [|exact E].
+    destruct (run f en (start en b) n1) as [[[b2 n2] o2]|] eqn:EB; [|discriminate].
+    rewrite (IH _ _ _ _ EB). exact E.
+  - match type of E with match ?gg l n with _ => _ end = _ => set (go := gg) in * end.
+    match goal with |- match ?gg l n with _ => _ end = _ => set (go' := gg) end.
+    assert (G : forall l n x, go l n = Some x -> go' l n = Some x).
+    { clear E. induction l0 as [|x l0 IHl]; intros n0 y E0; [exact E0|].
+      change (go (x :: l0) n0) with (match run f en x n0 with None => None | Some (x', n1, o1) =>
+               match go l0 n1 with Some (r', n2, o2) => Some (x' :: r', n2, ro_app o1 o2) | None => None end end) in E0.
+      change (go' (x :: l0) n0) with (match run (S f) en x n0 with None => None | Some (x', n1, o1) =>
+               match go' l0 n1 with Some (r', n2, o2) => Some (x' :: r', n2, ro_app o1 o2) | None => None end end).
+      destruct (run f en x n0) as [[[x1 m1] p1]|] eqn:EX; [|discriminate].
+      rewrite (IH _ _ _ _ EX).
+      destruct (go l0 m1) as [[[r1 m2] p2]|] eqn:EG; [|discriminate].
+      rewrite (IHl _ _ EG). exact E0. }
+    destruct (go l n) as [[[l1 n1] o1]|] eqn:EG; [|discriminate]. rewrite (G _ _ _ EG). exact E.
+  - destruct (run f en a n) as [[[a1 n1] o1]|] eqn:EA; [|discriminate]. rewrite (IH _ _ _ _ EA). exact E.
+  - destruct (run f en a n) as [[[a1 n1] o1]|] eqn:EA; [|discriminate]. rewrite (IH _ _ _ _ EA). exact E.
+Qed.
+
+(* a command that has not been run yet waits on nothing: no answer is taken by it, no drop changes it *)
+Lemma fresh_strand_deliver rid v u en t : deliver_strand rid v (mkRS u en (RRun t) []) = (false, mkRS u en (RRun t) []).
+Proof. reflexivity. Qed.
+Lemma fresh_strand_kill rid u en t : kill_waiter rid (mkRS u en (RRun t) []) = mkRS u en (RRun t) [].
+Proof. reflexivity. Qed.
+Definition fresh_strand (s : rstrand) : Prop := exists u en t, s = mkRS u en (RRun t) [].
+Lemma fresh_strands_deliver rid v l : Forall fresh_strand l ->
+  map (deliver_strand rid v) l = map (fun s => (false, s)) l.
+Proof. induction 1 as [|s l (u & en & t & ->) _ IH]; cbn [map]; [reflexivity|]. rewrite fresh_strand_deliver, IH. reflexivity. Qed.
+Lemma fresh_strands_kill rid l : Forall fresh_strand l -> map (kill_waiter rid) l = l.
+Proof. induction 1 as [|s l (u & en & t & ->) _ IH]; cbn [map]; [reflexivity|]. rewrite fresh_strand_kill, IH. reflexivity. Qed.
+Lemma map_false_fst {A} (l : list A) : existsb fst (map (fun s => (false, s)) l) = false.
+Proof. induction l; cbn; auto. Qed.
+Lemma map_false_snd {A} (l : list A) : map snd (map (fun s : A => (false, s)) l) = l.
+Proof. induction l as [|x l IH]; cbn; [reflexivity|]. rewrite IH. reflexivity. Qed.
+Lemma start_bag_fresh en m ex : Forall fresh_strand (b_strands (start_bag en m ex)).
+Proof.
+  unfold start_bag; cbn [b_strands]. constructor; [exists 0, en, m; reflexivity|].
+  apply Forall_forall. intros s Hs. apply in_map_iff in Hs as ((i & t) & <- & _). exists (S i), en, t. reflexivity.
+Qed.
+Lemma bag_fresh_deliver rid v b : Forall fresh_strand (b_strands b) -> deliver rid v (RBag b) = (false, RBag b).
+Proof.
+  intros F. cbn [deliver]. rewrite (fresh_strands_deliver rid v _ F), map_false_fst, map_false_snd. destruct b; reflexivity.
+Qed.
+Lemma bag_fresh_drop rid b : Forall fresh_strand (b_strands b) -> dropreq rid (RBag b) = RBag b.
+Proof. intros F. cbn [dropreq]. rewrite (fresh_strands_kill rid _ F). destruct b; reflexivity. Qed.
+
+Lemma start_deliver rid v en : forall c, deliver rid v (start en c) = (false, start en c).
+Proof.
+  fix IH 1. intros c.
+  assert (L : forall cs, map (deliver rid v) (map (start en) cs) = map (fun x => (false, x)) (map (start en) cs)).
+  { induction cs as [|x cs IHl]; cbn [map]; [reflexivity|]. rewrite (IH x), IHl. reflexivity. }
+  destruct c; cbn [start]; try (apply bag_fresh_deliver, start_bag_fresh).
+  - cbn [deliver]. rewrite (IH c1). reflexivity.
+  - change (RPar [start en c1; start en c2]) with (RPar (map (start en) [c1; c2])).
+    cbn [deliver]. rewrite L, map_false_fst, map_false_snd. reflexivity.
+  - cbn [deliver]. rewrite L, map_false_fst, map_false_snd. reflexivity.
+  - cbn [deliver]. rewrite (IH c). reflexivity.
+  - cbn [deliver]. rewrite (IH c). reflexivity.
+  - cbn [deliver]. rewrite (IH c). reflexivity.
+  - cbn [deliver]. rewrite (IH c). reflexivity.
+  - cbn [deliver]. rewrite (IH c). reflexivity.
+  - apply IH.
+Qed.
+Lemma start_drop rid en : forall c, dropreq rid (start en c) = start en c.
+Proof.
+  fix IH 1. intros c.
+  assert (L : forall cs, map (dropreq rid) (map (start en) cs) = map (start en) cs).
+  { induction cs as [|x cs IHl]; cbn [map]; [reflexivity|]. rewrite (IH x), IHl. reflexivity. }
+  destruct c; cbn [start]; try (apply bag_fresh_drop, start_bag_fresh).
+  - cbn [dropreq]. rewrite (IH c1). reflexivity.
+  - change (RPar [start en c1; start en c2]) with (RPar (map (start en) [c1; c2])). cbn [dropreq]. rewrite L. reflexivity.
+  - cbn [dropreq]. rewrite L. reflexivity.
+  - cbn [dropreq]. rewrite (IH c). reflexivity.
+  - cbn [dropreq]. rewrite (IH c). reflexivity.
+  - cbn [dropreq]. rewrite (IH c). reflexivity.
+  - cbn [dropreq]. rewrite (IH c). reflexivity.
+  - cbn [dropreq]. rewrite (IH c). reflexivity.
+  - apply IH.
+Qed.
+
+(* one-directional simulation: whenever the bare command's run succeeds (its fuel suffices), the wrapped
+   one - with at least as much fuel - gives the same trace *)
+Section SimFwd.
+  Variables fl fr : nat.
+  Variable R : rc -> rc -> Prop.
+  Hypothesis R_run : forall a b n b' n' o, R a b -> run fr [] b n = Some (b', n', o) ->
+    exists a' o', run fl [] a n = Some (a', n', o') /\ R a' b' /\ ro_effs o' = ro_effs o /\ ro_evs o' = ro_evs o /\ rdone a' = rdone b'.
+  Hypothesis R_deliver : forall rid v a b, R a b ->
+    fst (deliver rid v a) = fst (deliver rid v b) /\ R (snd (deliver rid v a)) (snd (deliver rid v b)).
+  Hypothesis R_drop : forall rid a b, R a b -> R (dropreq rid a) (dropreq rid b).
+
+  Lemma fwd_advance s1 s2 a2 : simR R s1 s2 -> radvance fr s2 = Some a2 ->
+    exists a1, radvance fl s1 = Some a1 /\ simR R a1 a2 /\ rdone (r_c a1) = rdone (r_c a2).
+  Proof.
+    intros (Rc & En & Ee & Ev & Er). unfold radvance. rewrite En.
+    destruct (run fr [] (r_c s2) (r_n s2)) as [[[b' n2] o2]|] eqn:EB; [|discriminate].
+    intros E; inversion E; subst a2; clear E.
+    destruct (R_run _ _ _ _ _ _ Rc EB) as (a' & o' & EA & R' & E1 & E2 & D). rewrite EA.
+    eexists; split; [reflexivity|]. split; [|exact D].
+    unfold simR; cbn [r_c r_n r_effs r_evs r_reqs]. rewrite Ee, Ev, Er, E1, E2. repeat split; try reflexivity. exact R'.
+  Qed.
+
+  Lemma fwd_step a s1 s2 o2 t2 : not_spawn a = true -> simR R s1 s2 -> rstep fr a s2 = Some (o2, t2) ->
+    exists t1, rstep fl a s1 = Some (o2, t1) /\ simR R t1 t2.
+  Proof.
+    intros NS S0 E. pose proof S0 as (Rc & En & Ee & Ev & Er).
+    destruct a; unfold rstep in *; try discriminate NS.
+    - destruct (radvance fr s2) as [a2|] eqn:EA; [|discriminate].
+      destruct (fwd_advance s1 s2 a2 S0 EA) as (a1 & -> & (Ac & An & Ae & Av & Ar) & _).
+      inversion E; subst; clear E. rewrite Ae, Av, Ar, An. eexists; split; [reflexivity|].
+      unfold simR; cbn [r_c r_n r_effs r_evs r_reqs]. repeat split; try reflexivity. exact Ac.
+    - destruct (radvance fr s2) as [a2|] eqn:EA; [|discriminate].
+      destruct (fwd_advance s1 s2 a2 S0 EA) as (a1 & -> & (Ac & An & Ae & Av & Ar) & _).
+      inversion E; subst; clear E. rewrite Ae, Av, Ar, An. eexists; split; [reflexivity|].
+      unfold simR; cbn [r_c r_n r_effs r_evs r_reqs]. repeat split; try reflexivity. exact Ac.
+    - destruct (radvance fr s2) as [a2|] eqn:EA; [|discriminate].
+      destruct (fwd_advance s1 s2 a2 S0 EA) as (a1 & -> & A & D). pose proof A as (Ac & An & Ae & Av & Ar).
+      inversion E; subst; clear E. rewrite Ae, Av, D. eexists; split; [reflexivity | exact A].
+    - rewrite Er. destruct (find_rr tg v occ 0 (r_reqs s2)) as [i|]; [|inversion E; subst; eexists; split; [reflexivity | exact S0]].
+      set (r := nth i (r_reqs s2) _) in *.
+      pose proof (R_deliver (re_rid (rr_eff r)) out (r_c s1) (r_c s2) Rc) as (Df & Dr).
+      destruct (rr_state r) as [|[|[|k]]].
+      + inversion E; subst; eexists; split; [reflexivity | exact S0].
+      + destruct (deliver (re_rid (rr_eff r)) out (r_c s1)) as [t1' c1], (deliver (re_rid (rr_eff r)) out (r_c s2)) as [t2' c2].
+        cbn [fst snd] in *. inversion E; subst; clear E. eexists; split; [reflexivity|].
+        unfold simR; cbn [r_c r_n r_effs r_evs r_reqs]. rewrite En, Ee, Ev. repeat split; try reflexivity. exact Dr.
+      + destruct (deliver (re_rid (rr_eff r)) out (r_c s1)) as [t1' c1], (deliver (re_rid (rr_eff r)) out (r_c s2)) as [t2' c2].
+        cbn [fst snd] in *. subst t2'. destruct t1'; inversion E; subst; clear E.
+        * eexists; split; [reflexivity|]. unfold simR; cbn [r_c r_n r_effs r_evs r_reqs]. rewrite En, Ee, Ev. repeat split; try reflexivity. exact Dr.
+        * eexists; split; [reflexivity | exact S0].
+      + inversion E; subst; eexists; split; [reflexivity | exact S0].
+    - rewrite Er. destruct (find_rr tg v occ 0 (r_reqs s2)) as [i|]; [|inversion E; subst; eexists; split; [reflexivity | exact S0]].
+      set (r := nth i (r_reqs s2) _) in *.
+      pose proof (R_drop (re_rid (rr_eff r)) (r_c s1) (r_c s2) Rc) as Dr.
+      destruct (rr_state r) as [|[|[|[|k]]]]; inversion E; subst; clear E;
+        try (eexists; split; [reflexivity | exact S0]);
+        (eexists; split; [reflexivity|]; unfold simR; cbn [r_c r_n r_effs r_evs r_reqs]; rewrite ?En, ?Ee, ?Ev; repeat split; try reflexivity; assumption).
+    - inversion E; subst; eexists; split; [reflexivity | exact S0].
+    - inversion E; subst; eexists; split; [reflexivity | exact S0].
+    - inversion E; subst; eexists; split; [reflexivity | exact S0].
+  Qed.
+
+  Theorem fwd_trace : forall acts s1 s2 t, no_spawn acts = true -> simR R s1 s2 -> rrun fr acts s2 = Some t -> rrun fl acts s1 = Some t.
+  Proof.
+    induction acts as [|a acts IH]; intros s1 s2 t NS S0 E; cbn [rrun] in *; [exact E|].
+    unfold no_spawn in NS. cbn [forallb] in NS. apply andb_prop in NS as [NS1 NS2].
+    destruct (rstep fr a s2) as [[o2 t2]|] eqn:E2; [|discriminate].
+    destruct (fwd_step a s1 s2 o2 t2 NS1 S0 E2) as (t1 & -> & S1).
+    destruct (rrun fr acts t2) as [os|] eqn:E3; [|discriminate].
+    rewrite (IH t1 t2 os NS2 S1 E3). exact E.
+  Qed.
+End SimFwd.
+
+Definition Rtl (c : cmd) (a b : rc) : Prop := (a = RSeq done_bag0 c /\ b = start [] c) \/ a = b.
+Theorem then_done_left_trace : forall f c acts t, no_spawn acts = true ->
+  ref_direct f c acts = Some t -> ref_direct (S f) (CThen c_done c) acts = Some t.
+Proof.
+  intros f c acts t NS E. unfold ref_direct in *. cbn [start]. rewrite start_done.
+  apply (fwd_trace (S f) f (Rtl c)) with (s2 := mkRSt (start [] c) 0 [] [] []); [| | |exact NS| |exact E].
+  - intros a b n b' n' o [(-> & ->) | ->] EB.
+    + assert (Ef : exists f', f = S f') by (destruct f as [|f']; [discriminate EB | exists f'; reflexivity]).
+      destruct Ef as [f' Ef]. cbn [run].
+      assert (Ed : run f [] done_bag0 n = Some (done_bag1, n, ro0)) by (rewrite Ef; apply done_bag_run, done_bag0_is).
+      rewrite Ed. cbn [rdone done_bag1 b_strands]. rewrite EB.
+      exists b', (ro_app ro0 o). split; [reflexivity|]. split; [right; reflexivity|]. repeat split; reflexivity.
+    + exists b', o. split; [apply run_mono; exact EB|]. split; [right; reflexivity|]. repeat split; reflexivity.
+  - intros rid v a b [(-> & ->) | ->].
+    + cbn [deliver]. rewrite (done_bag_deliver rid v _ done_bag0_is), start_deliver. cbn [fst snd]. split; [reflexivity | left; split; reflexivity].
+    + split; [reflexivity | right; reflexivity].
+  - intros rid a b [(-> & ->) | ->].
+    + cbn [dropreq]. rewrite (done_bag_drop rid _ done_bag0_is), start_drop. left; split; reflexivity.
+    + right; reflexivity.
+  - unfold simR; cbn [r_c r_n r_effs r_evs r_reqs]. repeat split; try reflexivity. left; split; reflexivity.
+Qed.
